@@ -21,6 +21,7 @@ type Part struct {
 	Share     int  // share of -n (percent)
 	NoAppTr   bool // application-transfer feature not active: the "public key from the account" path is reachable
 	FeeMulti  int64
+	SendMulti int64 // per-type multiplier for "send" (and 2 for "stake_validator")
 	HaltProbe bool // probe the ante handler with a context at the chain-halt height (no DeliverTx)
 	HaltChain bool // run a real chain up to the chain-halt height and deliver there
 }
@@ -103,7 +104,7 @@ func Run(profile string, parts []Part) {
 func runPart(profile string, p Part, seed uint64, n int, out string) {
 	t := gen.NewTrace(out)
 	r := gen.New(seed)
-	opts := Options{ChainID: "verif-" + p.Name, FeeMulti: p.FeeMulti}
+	opts := Options{ChainID: "verif-" + p.Name, FeeMulti: p.FeeMulti, SendMulti: p.SendMulti}
 	if p.NoAppTr {
 		f := chain.AllFeatures(2)
 		f[codec.AppTransferKey] = 1000000
@@ -112,6 +113,9 @@ func runPart(profile string, p Part, seed uint64, n int, out string) {
 	l, ro := NewChain(opts)
 	mult := p.FeeMulti
 	g := NewGen(r, l, ro, Profiles[profile], mult)
+	if p.SendMulti != 0 {
+		g.perType = map[string]int64{"send": p.SendMulti, "stake_validator": 2}
+	}
 	codes := map[string]int{}
 	emit := func(c Case, haltProbe bool) {
 		line, res, nt := l.ObserveAt(c, haltProbe)
